@@ -590,12 +590,15 @@ static void c06_init(void) {
 
 static int sch_bdpe(sess_t *s) {
 	int k = (int)s->opt[4];
-	const dig_t prime = 0xFB;
+	/* opt[7] ("ord") selects the block size: a small prime makes the one-in-block key-generation corner cases frequent */
+	static const dig_t blocks[] = { 0xFB, 3, 5, 7, 11, 13, 0xFB, 0xFB };
+	const dig_t prime = blocks[(unsigned long)s->opt[7] % 8];
 	if (k < 1) k = 1;
 	if (k > 4) k = 4;
 	c06_init();
 	if (s->phase == 0) {
 		int rc = cp_bdpe_gen(bd_pub[s->sid], bd_prv[s->sid], prime, 512);
+		tr_printf("OUT %d block v=%02x\n", s->sid, (unsigned)prime);
 		log_rc(s, "gen", rc);
 		return rc == RLC_OK;
 	}
